@@ -1545,7 +1545,67 @@ def w_http_queue(failure, tier):
     return dict(found=False, note='HTTP queue: %d request sequences against the real server: acknowledged writes survive refused requests, refused requests leave nothing behind' % n)
 
 
+def w_compact(failure, tier):
+    """segments with deleted documents at every position, then compact: the live documents (ids and stored bodies) afterwards
+    are exactly the ones before"""
+    cases, wants = [], []
+    ids = ["a", "b", "c", "d", "e"]
+    for dele in (["a"], ["c"], ["e"], ["a", "b"], ["d", "e"], ["a", "c", "e"], []):
+        ops = [["add", {"_id": i, "body": "rust %s" % i}] for i in ids] + [["commit"]]
+        ops += [["add", {"_id": "z%d" % k, "body": "more %d" % k}] for k in range(3)] + [["commit"]]
+        ops += [["del", i] for i in dele] + [["commit"], ["compact"]]
+        cases.append({"ops": ops})
+        wants.append(sorted([i for i in ids if i not in dele] + ["z0", "z1", "z2"]))
+    outs = drive('history', [_json.dumps(c).encode() for c in cases])
+    n = 0
+    for c, want, r in zip(cases, wants, outs):
+        if not r.startswith('OK '):
+            return dict(found=False, note='history driver failed: %s' % r[:300])
+        d = _json.loads(r[3:])
+        n += 1
+        got = sorted(x[0] for x in d.get('live', []))
+        if got != want or d.get('log'):
+            return dict(found=True, cmd='%s history <<< hex(json)' % BIN,
+                        input='segment 1: a b c d e; segment 2: z0 z1 z2; deleted %s; then compact' % [o[1] for o in c['ops'] if o[0] == 'del'],
+                        observed='live afterwards: %s; log %s' % (got, d.get('log')), expected='live afterwards: %s' % want)
+    return dict(found=False, note='compaction: %d histories with deletions at every position of a segment keep exactly the live documents' % n)
+
+
+def w_stored_nested(failure, tier):
+    """what a search returns as the stored value of a nested field is the projection of what was indexed onto the stored
+    properties: elements without any stored property drop out (the others stay), child objects are projected through their
+    own definition, nulls and unstored properties disappear"""
+    kw = lambda n, st: {"type": "keyword", "name": n, "stored": st, "indexed": True, "fast": True, "nullable": True}
+    add = {"nested_fields": [{"name": "c", "nullable": True, "fields": [
+        kw("a", True), kw("h", False),
+        {"type": "object", "name": "r", "nullable": True, "fields": [kw("u", True), kw("v", False), kw("a", False)]}]}]}
+    docs = [
+        ({"_id": "p1", "body": "rust", "c": [{"a": "x", "h": "y"}, {"h": "hidden only"}, {"a": "z", "r": {"u": "1", "v": "2"}}]},
+         [{"a": "x"}, {"a": "z", "r": {"u": "1"}}]),
+        ({"_id": "p2", "body": "rust", "c": [{"h": "hidden only"}]}, None),
+        ({"_id": "p3", "body": "rust", "c": {"a": "solo", "r": {"v": "unstored", "a": "child a is not stored"}}}, {"a": "solo"}),
+        ({"_id": "p4", "body": "rust", "c": [{"a": None, "h": "q"}, {"a": "k", "r": None}]}, [{"a": "k"}]),
+        ({"_id": "p5", "body": "rust", "c": [{"r": {"u": "deep"}}, {"r": {"v": "none stored"}}, {"a": "last"}]}, [{"r": {"u": "deep"}}, {"a": "last"}]),
+    ]
+    req = dict(REQ_BASE, query="rust", limit=20, return_stored=True)
+    out, err = drive_search({"schema": None, "schema_add": add, "batches": [[d for (d, _w) in docs]], "requests": [req]})
+    if out is None or 'ok' not in out[0]:
+        return dict(found=False, note='search driver failed: %s' % (err or str(out)[:300]))
+    got = dict((h['doc_id'], (h.get('fields') or {}).get('c')) for h in out[0]['ok']['hits'])
+    n = 0
+    for (d, want) in docs:
+        n += 1
+        if got.get(d['_id']) != want:
+            return dict(found=True, cmd='%s search <<< hex(json)' % BIN,
+                        input='nested field c (a stored, h not stored, child object r with u stored, v and a not stored); document %s' % _json.dumps(d),
+                        observed='stored c = %s' % _json.dumps(got.get(d['_id'])), expected='stored c = %s' % _json.dumps(want))
+    return dict(found=False, note='stored nested values: %d documents return exactly the stored projection of their nested field' % n)
+
+
 GENERATORS = {
+    ('U44', 'project_array'): w_stored_nested,
+    ('U44', 'project_object'): w_stored_nested,
+    ('U43', 'compact_docs'): w_compact,
     ('U41', 'bulk_ingest_section'): w_http_queue,
     ('U41', 'add_ndjson_section'): w_http_queue,
     ('U41', 'rollback'): w_http_queue,
